@@ -256,6 +256,9 @@ def job_write_input(prog):
             lower = z3.Function("str.lower", U, U)
             key = lower(rt.t) if isinstance(rt, SU) else None
             table = defaults[2]
+            if variant == "kwargs-override":
+                # the user supplies run_type: the run type of the object must not matter, in particular not fail
+                ctx.prove(f"{T}::post.a-user-supplied-run_type-makes-the-object's-run-type-irrelevant-(no-failure)", out.kind == "return", witness={"needs": "an object whose run_type the program's table does not list (e.g. 'scan' for ORCA) and a run_type= keyword argument"})
             if out.kind == "raise":
                 known = z3.Or(*[key == ustr(k) for k in table]) if key is not None else z3.BoolVal(True)
                 if key is not None and not ctx.feasible(rt.t != ustr("")):
